@@ -33,8 +33,20 @@ func stdHmac(id string, key, msg []byte) []byte {
 
 // adjacent lays two inputs out the way a caller slicing one receive / scratch buffer would: a | b | sentinel in one backing
 // array, a's capacity reaching over b and the sentinel.  check reports whether any octet of the array was changed.
+// Two calls out of three lay the inputs out in the SAME scratch array as the call before (a caller re-filling its nonce /
+// secret buffer for the next exchange): the library must not have kept a view of the previous call's inputs.
+var (
+	adjScratch = make([]byte, 0, 8192)
+	adjCount   int
+)
+
 func adjacent(a, b []byte) (a2, b2 []byte, check func() bool) {
 	buf := make([]byte, 0, len(a)+len(b)+64)
+	if solo() {
+		if adjCount++; adjCount%3 != 0 && len(a)+len(b)+64 <= cap(adjScratch) {
+			buf = adjScratch[:0]
+		}
+	}
 	buf = append(append(buf, a...), b...)
 	for i := 0; i < 64; i++ {
 		buf = append(buf, 0xA5)
